@@ -660,6 +660,56 @@ func scenRestart(tr *vtrace.Tracer, kind string) error {
 	return nil
 }
 
+// C10: the receiver's reconnect attempt has failed and it is about to sleep in
+// its back-off when the server comes back and the sender re-creates the stream
+// for a new call.  The wake-up must not be lost: the reply on the new stream
+// must be read at once, not when the back-off timer fires.
+func scenWakeBeforeSleep(tr *vtrace.Tracer, kind string) error {
+	l, err := newLife(tr, EnvOpts{Nodes: 1, MgrOpts: []gorums.ManagerOption{gorums.WithBackoff(slowBackoff)}})
+	if err != nil {
+		return err
+	}
+	defer l.finish()
+	a := l.call("Rpc", 1, false, false)
+	if !l.wait(a, SyncTimeout) {
+		return fmt.Errorf("first call did not complete")
+	}
+	// hold the receiver (who < 0) after its failed attempt, before the back-off
+	g := tr.NewGate(func(e vtrace.Event) bool { return e.Ev == "ReconBackoffWait" && e.Node == 1 && e.Int("who") < 0 })
+	l.e.Server(1).Stop()
+	if !g.Arrived(SyncTimeout) {
+		g.Open()
+		return fmt.Errorf("receiver did not reach its back-off")
+	}
+	if err := l.e.Server(1).Start(); err != nil {
+		g.Open()
+		return err
+	}
+	ready := false
+	for i := 0; i < 300 && !ready; i++ {
+		ready = gorums.VerifRedialNow(l.e.Node(1).RawNode)
+		time.Sleep(10 * time.Millisecond)
+	}
+	if !ready {
+		g.Open()
+		return fmt.Errorf("transport did not become ready")
+	}
+	// the sender re-creates the stream for the probe call and leaves the wake-up
+	from := tr.Len()
+	p := l.call(kind, 1, true, false)
+	recreated := tr.Await(from, SyncTimeout, func(e vtrace.Event) bool {
+		return e.Ev == "ReconNewStream" && e.Node == 1 && e.Bool("ok") && e.Int("who") > 0
+	}) >= 0
+	time.Sleep(5 * time.Millisecond)
+	g.Open()
+	if !recreated {
+		return fmt.Errorf("the sender did not re-create the stream")
+	}
+	l.wait(p, QuietT)
+	l.quiescent()
+	return nil
+}
+
 // C10: a reconnect attempt fails (the server is still down) while the receiver
 // goroutine is between two reads; the receiver goes on, the server comes back
 // and the node must be usable again.
@@ -976,6 +1026,7 @@ var LifeScenarios = map[string][]LifeScenario{
 		{Name: "restart", Run: scenRestart},
 		{Name: "down-at-creation", Run: scenDownAtCreation},
 		{Name: "failed-reconnect-between-reads", Run: scenFailedReconnectBetweenReads},
+		{Name: "wake-before-sleep", Run: scenWakeBeforeSleep},
 		{Name: "metadata", Run: scenMetadata},
 	},
 	"C12": {
